@@ -51,8 +51,8 @@ def run(ctx):
     ctx.cov.update({
         "evaluations": nsess, "distinct_nontrivial": len(distinct), "traces_validated_against_impl": nsess - len(corr_bad),
         "rule": "the C04 history generator (own seed stream); per split the examples reachable after each session are compared as multisets with "
-                "previous + newly written; Dataset.create on the final dataset must raise DatasetExistsError with all files byte-identical",
+                "previous + newly written; Dataset.create on the final dataset — addressed by its absolute path, a relative path, a path through `..`, with a trailing separator, through `~` and through a symbolic link — must raise DatasetExistsError with all files byte-identical",
         "samples": [{"case": results[0]["case"]}] if results else [],
-        "input_distribution": {"sessions": nsess, "create_checks": len(results),
+        "input_distribution": {"sessions": nsess, "create_checks": len(results), "create_spellings": {k: sum(1 for r in results if r["create"].get("spellings", {}).get(k) == "refused") for k in ("absolute", "relative", "dotdot", "trailing-slash", "tilde", "symlink")},
                                "kinds": collections.Counter(s["kind"] + ":" + str(s.get("sub", "")) for r in results for s in r["case"]["hist"])},
     })
